@@ -58,7 +58,7 @@ class CHECK(Check):
             "another type, of a SUBCLASS type adding 0-2 properties, and free-text lines; 1-3 successive views of parent / child / other type on the same file; missing values (None/NaN/NaT) in any position; observed: column names, shape, "
             "every cell after null canonicalisation, custom_properties, and the registers' data after editing the frame in "
             "place. non-trivial = at least 2 registers of the type and 1 property; distinct = hash"
-            " Later additions: dates outside the datetime64[ns] window, list-valued property values, a subclass type adding properties, two files.")
+            " Later additions: dates outside the datetime64[ns] window, list-valued property values, a subclass type adding properties, two files, a subclass overriding a getter and sharing a file with its parent type.")
     not_exhibited = ["pandas dtype inference and null representation (cells are compared after null canonicalisation)"]
 
     def gen(self, tier, rng):
@@ -70,10 +70,17 @@ class CHECK(Check):
             other_names = rng.sample(NAME_POOL, rng.randint(0, 2))
             extra = [n for n in rng.sample(NAME_POOL, rng.randint(0, 2)) if n not in names]
             ekinds = [rng.choice(["int", "lit"]) for _ in extra]
-            def gen_elems(family_type):
+            # the subclass may OVERRIDE the getter of the parent's first property (and then adds none of its own, so that parent and
+            # child registers can share a file): a cell is that register's own property value
+            override = bool(names) and rng.random() < 0.3
+            if override:
+                extra, ekinds = [], []
+
+            def gen_elems(family_type0):
                 elems = []
                 for _ in range(rng.randint(0, 10)):
                     k = rng.random()
+                    family_type = rng.choice([0, 2]) if override else family_type0
                     if k < 0.6:
                         vals = []
                         for kd in kinds + (ekinds if family_type == 2 else []):
@@ -99,7 +106,10 @@ class CHECK(Check):
             # a view = (file, requested type); file 0 holds parent-type registers, file 1 child-type registers
             reqs = rng.choice([[[0, 0]], [[0, 0], [1, 2]], [[1, 2], [0, 0]], [[0, 0], [1, 2], [0, 0]], [[0, 1], [0, 0]], [[1, 2]],
                                [[1, 0]], [[0, 0], [1, 0], [1, 1]], [[0, 2]]])
-            yield {"names": names, "kinds": kinds, "other_names": other_names, "extra": extra, "files": files, "reqs": reqs}
+            case = {"names": names, "kinds": kinds, "other_names": other_names, "extra": extra, "files": files, "reqs": reqs}
+            if override:
+                case["override"] = True
+            yield case
 
     def impl(self, case):
         from cfinterface.components.register import Register
@@ -130,6 +140,9 @@ class CHECK(Check):
         T0 = mkcls("T0", "T0", case["names"])
         T1 = mkcls("T1", "T1", case["other_names"])
         T2 = mkchild("T2", T0, case["extra"], len(case["names"]))
+        if case.get("override"):
+            nn = len(case["names"])
+            T2 = type("T2o", (T0,), {"__slots__": [], case["names"][0]: property((lambda self: self.data[nn - 1]) if nn > 1 else (lambda self: 77))})
         types = [T0, T1, T2]
         regs = []
         fobjs = []
@@ -165,6 +178,13 @@ class CHECK(Check):
     def names_of(self, case, i):
         return [case["names"], case["other_names"], case["names"] + case["extra"]][i]
 
+    def props_of(self, case, i, d):
+        """the property values of a register of type i holding data d, in names_of order"""
+        d = list(d)
+        if i == 2 and case.get("override"):
+            d[0] = d[len(case["names"]) - 1] if len(case["names"]) > 1 else ["int", 77]
+        return d
+
     def model_arg(self, case):
         types = [self.names_of(case, i) + FRAMEWORK for i in range(3)]
         sub = [[1, 0, 0], [0, 1, 0], [1, 0, 1]]
@@ -173,7 +193,7 @@ class CHECK(Check):
             regs = []
             for i, d in case["files"][fi]:
                 if i >= 0:
-                    regs.append([i, [[n, fl.value_sx(v)] for n, v in zip(self.names_of(case, i), d)]])
+                    regs.append([i, [[n, fl.value_sx(v)] for n, v in zip(self.names_of(case, i), self.props_of(case, i, d))]])
             views.append([rq, regs])
         return [types, sub, views]
 
@@ -215,6 +235,7 @@ class CHECK(Check):
                 return "view does not have one row per register of the type"
             for (i, r), row in zip(members, v["cells"]):
                 nm = self.names_of(case, i)
+                r = self.props_of(case, i, r)
                 exp = [canon_val(r[nm.index(c)]) for c in cols]
                 if row != exp:
                     return "cell differs from the register's property value"
@@ -227,7 +248,8 @@ class CHECK(Check):
 
     def classify(self, case):
         return {"props_%d" % len(case["names"]): 1, "regs_%02d" % sum(1 for i, _ in case["files"][0] + case["files"][1] if i in (0, 2)): 1,
-                "views_%d" % len(case["reqs"]): 1, "child_props_%d" % len(case["extra"]): 1}
+                "views_%d" % len(case["reqs"]): 1, "child_props_%d" % len(case["extra"]): 1,
+                "child_overrides_getter" if case.get("override") else "child_keeps_getters": 1}
 
     def signature(self, case, why):
         return why.split(":")[0]
